@@ -35,7 +35,10 @@ class C12(scen.WorldProp):
                 "Wheatley.C12.look_to_forgets_data",
                 "Wheatley.C12.centred_evaluation_is_the_same_fit",
                 "Wheatley.det_pos",
-                "Wheatley.regress_eq"]
+                "Wheatley.regress_eq",
+                "Wheatley.C12.cli_memory"]
+    # the command line: what of the built configuration this property is about
+    cli_fields = ['max_bells', 'min_bells']
     level_text = ("theorems (any ordered field): weighted least squares recovers a line exactly from any data set "
                   "lying on it (any positive weights, two distinct blows); the determinant is a sum of squares, "
                   "positive for positive weights; one update moves the line to lerp(regression, line, inertia), so on "
